@@ -1,4 +1,5 @@
 import CstModel.Props.C08
+import CstModel.Props.GenNav
 open Cst.C08
 #print axioms markers_sound
 #print axioms markers_complete
@@ -9,3 +10,5 @@ open Cst.C08
 #print axioms text_sound
 #print axioms kind_irrelevant
 #print axioms iter_sound
+#print axioms Cst.Gen.nd_accessors
+#print axioms Cst.Gen.tk_kinds
